@@ -288,7 +288,7 @@ func setStr(m map[string]bool) string {
 func init() {
 	register("c16", "no lost wake-ups: event handlers and worker requeue discipline", func([]string) int {
 		rep := explore.NewReport("C16", "model_checking")
-		rep.Rule = "exhaustive event shapes on the real handlers registered by the real constructor: sets web and db in the lister with selectors {app=web | tier=db; both app=web; app In (web,web2) | tier Exists; app=web and tier DoesNotExist | app NotIn (web)}; pod shapes = owner{none, web right UID, web right UID under the older API version v1alpha1, web stale UID, ReplicaSet named web, non-controller ref, db, unknown set, plain ref to db followed by the controller ref to web} x labels{web, db, both, unrelated, nil} x terminating; events = add(shape), update(old shape x new shape x same/different resourceVersion), delete(object), delete(tombstone with pod), delete(tombstone with junk), delete(junk); set add / delete / tombstone and update by every kind of edit and its undo (pause annotation, delete-slots, other annotation, label, replicas, template, status, deletion timestamp, finalizer, owner reference); worker = every success/failure sequence of length <=4 and every run of 5..40 consecutive failures followed by a success (failure = InternalError on the first API call; the recording queue counts requeues like a real rate limiter); and a worker step with an InternalError or a lost response at every call position of the reconcile of every state of a seed set (C09's seeds, a shallow population grid, owned pods next to orphans and pods to release): when the work is left undone the key is put back with backoff. Oracle: required subset of enqueued subset of allowed keys by a reference function written from the property; failure => AddRateLimited and no Forget, success => Forget, Done always. Non-trivial = the reference requires or allows at least one key."
+		rep.Rule = "exhaustive event shapes on the real handlers registered by the real constructor: sets web and db in the lister with selectors {app=web | tier=db; both app=web; app In (web,web2) | tier Exists; app=web and tier DoesNotExist | app NotIn (web)}; pod shapes = owner{none, web right UID, web right UID under the older API version v1alpha1, web stale UID, ReplicaSet named web, non-controller ref, db, unknown set, plain ref to db followed by the controller ref to web} x labels{web, db, both, unrelated, nil} x terminating; events (each delivered once with a clean rate limiter and once while failures of the key are on record) = add(shape), update(old shape x new shape x same/different resourceVersion), delete(object), delete(tombstone with pod), delete(tombstone with junk), delete(junk); set add / delete / tombstone and update by every kind of edit and its undo (pause annotation, delete-slots, other annotation, label, replicas, template, status, deletion timestamp, finalizer, owner reference); worker = every success/failure sequence of length <=4 and every run of 5..40 consecutive failures followed by a success (failure = InternalError on the first API call; the recording queue counts requeues like a real rate limiter); and a worker step with an InternalError or a lost response at every call position of the reconcile of every state of a seed set (C09's seeds, a shallow population grid, owned pods next to orphans and pods to release): when the work is left undone the key is put back with backoff. Oracle: required subset of enqueued subset of allowed keys by a reference function written from the property; failure => AddRateLimited and no Forget, success => Forget, Done always. Non-trivial = the reference requires or allows at least one key."
 		rep.Assumptions = []string{"selectors in the lister are valid ones", "orphan update without label/owner change and orphan delete are don't-care (property does not fix them)"}
 		var owners = []string{"none", "A", "Aoldversion", "Astale", "Akind", "Anonctrl", "B", "C", "BrefThenA"}
 		var labs = []string{"A", "B", "both", "none", "nil"}
@@ -316,8 +316,17 @@ func init() {
 			ph, sh := w.PodHandlers[0], w.SetHandlers[0]
 			q := &recQueue{}
 			w.Ctrl.VerifSetQueue(q)
+			var fireOnce func(label string, e expect, f func(), pending int)
 			fire := func(label string, e expect, f func()) {
+				// with no failure on record for the key, and while an earlier failed reconcile of the key is being retried
+				// (the rate limiter remembers failures until the next success): an event is an event either way
+				fireOnce(label, e, f, 0)
+				fireOnce(label+" [while a failed reconcile of the key awaits or runs its retry]", e, f, 2)
+			}
+			fireOnce = func(label string, e expect, f func(), pending int) {
 				q.log, q.items = nil, nil
+				q.requeues = pending
+				defer func() { q.requeues = 0 }()
 				var pan interface{}
 				func() {
 					defer func() { pan = recover() }()
